@@ -146,7 +146,8 @@ def tlc(module, cfg=None, env=None, workers=None, trace=False, timeout=1800, run
     """Run TLC on spec/<module>.tla with spec/<cfg>.cfg. Returns TlcResult; raises ToolError on tool failures."""
     cfg = cfg or module
     rundir = rundir or os.path.join(ROOT, "run", "tlc")
-    meta = os.path.join(rundir, "states-%s-%d" % (cfg, os.getpid()))
+    import uuid
+    meta = os.path.join(rundir, "states-%s-%s" % (cfg, uuid.uuid4().hex[:12]))
     os.makedirs(rundir, exist_ok=True)
     if trace:
         jopts = ["-XX:+UseSerialGC", "-XX:TieredStopAtLevel=4", "-Xss1g", "-Dtlc2.tool.queue.IStateQueue=StateDeque"]
